@@ -102,6 +102,8 @@ def main():
         pass
     # os.listdir: exactly the children                                                                         (store)
     check("listdir", sorted(os.listdir(dd)) == ["b"], os.listdir(dd))
+    import shutil
+    shutil.rmtree(dd, ignore_errors=True)
     # inspect.signature: a bound method shows the parameters without the first one; __wrapped__ is followed        (c07, K15)
     class K:
         def m(self, a, /, b=2, *c, d, **e):
